@@ -8,7 +8,7 @@ set -u
 DIR="$(readlink -f "$1")"; NAME="$(basename "$DIR")"
 WT="/var/tmp/seedchk/$NAME"
 export CARGO_NET_OFFLINE=true
-export CARGO_TARGET_DIR=/var/tmp/seedchk/target
+export CARGO_TARGET_DIR="${SEEDCHK_TARGET:-/var/tmp/seedchk/target}"
 mkdir -p /var/tmp/seedchk
 rm -rf "$WT"
 git -C /repo worktree add -q --detach "$WT" HEAD || exit 2
